@@ -1797,12 +1797,21 @@ func c13Rec(w *World, r *Result) {
 			}
 			continue
 		}
-		consumes := callsAny(comp, "Parser).eat")
+		consumes := false
+		for _, ci := range comp {
+			for _, cb := range fns[ci].Blocks {
+				for _, cins := range cb.Instrs {
+					if cc, ok := cins.(*ssa.Call); ok && isTokenConsumer(cc.Call.StaticCallee()) {
+						consumes = true
+					}
+				}
+			}
+		}
 		key := "rec:" + label
 		switch {
 		case consumes:
 			r.Ok(rule, key, pos, fmt.Sprintf("structural recursion of the parser (%d functions): every cycle passes a token-consuming call, depth bounded by the token count", len(names)))
-		case len(names) == 1 && strings.Contains(names[0], "evaluateExpression") || strings.Contains(label, "transpiler.evaluate"):
+		case allIn(names, "transpiler."):
 			r.Ok(rule, key, pos, "recursion over the finite tree built by the parser")
 		default:
 			if len(comp) == 1 && entryGuardedRecursion(fns[comp[0]]) {
